@@ -73,7 +73,7 @@ func makeEvictionPlan(rng *rand.Rand, n int, keys []string) evictionPlan {
 
 func checkC02(tier, replay string) int {
 	run := evid.NewRun("C02", tier, "exploration")
-	run.Rule("closed-loop command sequences (TTL 0) on L1/L2 shapes of the real memproxy, each run with a seeded L1 eviction plan " +
+	run.Rule("closed-loop command sequences (TTL 0) on L1/L2 shapes of the real memproxy (plain L1 unlocked / locked; chunking L1: replies only), each run with a seeded L1 eviction plan " +
 		"(none / one key / all keys / random subset / all keys before every command); every reply is compared with the reference map " +
 		"(which knows nothing about tiers), and after every command the two fake stores are compared: L1 subset of L2 with equal value and flags. " +
 		"distinct_nontrivial = distinct (configuration, protocol, port mode, eviction mode, op-kind sequence) with a key touched twice")
@@ -83,6 +83,9 @@ func checkC02(tier, replay string) int {
 	for _, lock := range []string{"none", "mr", "sr"} {
 		cfgs = append(cfgs, harness.ProxyCfg{L2: true, L1Kind: "std", Locked: lock != "none", MultiReader: lock == "mr"})
 	}
+	// a chunking L1 (answers an append on a key it does not hold with 'not found' where plain
+	// memcached says 'not stored'): replies only, its raw entries are not comparable with L2's
+	cfgs = append(cfgs, harness.ProxyCfg{L2: true, L1Kind: "chunked"}, harness.ProxyCfg{L2: true, L1Kind: "chunked", Locked: true})
 	ops := []string{"set", "set", "add", "replace", "append", "prepend", "delete", "touch", "get", "get", "mget", "mget", "gat", "gat", "setq"}
 	proxyPool(run, cfgs, 8, func(p *harness.Proxy, restart func() *harness.Proxy) {
 		cfg := p.Cfg
@@ -90,7 +93,7 @@ func checkC02(tier, replay string) int {
 			for _, pm := range portModes(true) {
 				g := newGen(run.Seed()*7000003 + int64(hashStr(cfg.Name()+protoName(binary)+pm.Name)))
 				for i := 0; i < nseq; i++ {
-					keys := keyAlphabet("std")
+					keys := keyAlphabet(cfg.L1Kind)
 					o := genOpts{Binary: binary, Keys: keys, MinLen: 8, MaxLen: 30, TTLs: []string{"0"}, T0: p.L1.T0(),
 						AllowGat: true, AllowQuiet: true, AllowMulti: true, Ports: pm.Ports, ValueLens: []int{0, 1, 50, 2000}, Ops: ops}
 					cmds := g.sequence(o)
@@ -101,16 +104,19 @@ func checkC02(tier, replay string) int {
 						return seqHooks{
 							before: func(s *session, i int, c wire.Cmd) {
 								if i < len(pl.At) && len(pl.At[i]) > 0 {
+									before := len(p.L1.Snapshot())
+									for _, k := range pl.At[i] {
+										evictClientKey(p, k)
+									}
 									if count {
-										before := len(p.L1.Snapshot())
-										p.L1.Evict(pl.At[i]...)
 										evicted += before - len(p.L1.Snapshot())
-									} else {
-										p.L1.Evict(pl.At[i]...)
 									}
 								}
 							},
 							after: func(s *session, i int, c wire.Cmd, obs wire.Result) string {
+								if cfg.L1Kind != "std" {
+									return ""
+								}
 								return inclusionDiff(p)
 							},
 						}
